@@ -98,7 +98,13 @@ func runC10(r *Runner, tier string, rng *Rng) {
 		if rng.Chance(30) {
 			cfg.Inspections = []string{rng.Pick([]string{"noop", "create", "modify"})}
 		}
+		// MORE counted links than the threshold asks for, one of them disagreeing: all of them are
+		// compared, whichever the map hands out first (seeded change c10-threshold-early-exit)
 		cfg.Differ = rng.Chance(5)
+		if rng.Chance(25) {
+			cfg.Differ = rng.Chance(70)
+			cfg.SurplusPct = 80
+		}
 		cfg.NSteps = 1 + rng.Intn(2)
 		// some keys (layout key entries and verifier keys) list their hash algorithms in another order
 		keyAlgOrder = map[string][]any{}
